@@ -605,7 +605,8 @@ def main():
             from sim.kernel import Choices
 
             ch = Choices(seed=spec.get("seed", 0))
-            parts = problem.split(nw, spec.get("split_var", 0))
+            # the split variable is drawn without knowing the size of the model: reduce it to an existing variable
+            parts = problem.split(nw, spec.get("split_var", 0) % max(1, len(problem.dom_indices_lst)))
             solvers = [mk(p) for p in parts]
             plan = {"template": ["merge", "jitter", "slow", "race"][ch.choose(4, "template")], "faults": {}, "start": {},
                     "late_pickle": ch.chance(1, 2, "late"), "opcost": ch.choose(3, "opcost")}
